@@ -23,10 +23,10 @@ ASSUMPTIONS = ["Java reference is a line-by-line transcription of org.apache.kaf
                "toPositive, checked against the published UtilsTest vectors at start-up",
                "the optional C extension murmurhash2 is not installed in this sandbox: only afkak's pure-Python hash "
                "is exercised", "partition lists given to RoundRobinPartitioner are ascending, as the property states"]
-REACH_MIN = {"hash_keys": {"quick": 15000, "thorough": 1500000},
-             "rr_histories": {"quick": 1500, "thorough": 100000},
-             "rr_list_changes": {"quick": 1000, "thorough": 50000},
-             "text_vs_bytes": {"quick": 1000, "thorough": 50000}}
+REACH_MIN = {"hash_keys": {"quick": 13200, "thorough": 158400},
+             "rr_histories": {"quick": 1320, "thorough": 15840},
+             "rr_list_changes": {"quick": 1000, "thorough": 12000},
+             "text_vs_bytes": {"quick": 1000, "thorough": 12000}}
 
 KAFKA_VECTORS = [(b"21", -973932308), (b"foobar", -790332482), (b"a-little-bit-long-string", -985981536),
                  (b"a-little-bit-longer-string", -1486304829),
